@@ -15,16 +15,26 @@
                  block and at every place between blocks; the front-matter fence test ignores
                  blanks, CR and LF after the dashes.
 
-   NOT proved: the invariance of the complete event stream / recipe under the edits
-   ([C17_full_statement] below).  The component, quantity, metadata and section parsers are
-   covered only through the text builder; that the edits leave their results unchanged at the
-   legal points is decided on every run by the metamorphic monitor of checks/c17.py on the
-   implementation, and the model is held to the implementation on the edited texts by the
-   L-lex/L-ev correspondence. *)
+   event level    (Proofs/EditSim*.v) a relational reading of the whole block parser: token streams
+                 with the same kinds token by token ([ksim]: positions free, comment and newline
+                 texts free) give [proj]-equal events - every parser function, one block, the
+                 block loop, a document.  Hence, at DOCUMENT level, for every source:
+                 [C17_crlf_events] (CRLF conversion, with or without front matter: the first
+                 conjunct of [C17_full_statement]) and [C17_extra_line_events] (a blank or
+                 comment-only line between blocks, sources without front matter: its last
+                 conjunct).  For inserted comments ([tsim]/[esim], not one-to-one): step blocks
+                 without component markers ([C17_text_block_blind]), the metadata line and the
+                 section line (see below).
+
+   NOT proved: the event-level invariance for a block comment inserted inside a block that
+   contains components (name, alias, note positions) and for the trailing ` --c` inside step
+   blocks; extra lines in a source WITH front matter.  These are decided on every run by the
+   metamorphic monitor of checks/c17.py on the implementation, the model being held to the
+   implementation on the edited texts by the L-lex/L-ev correspondence. *)
 From Coq Require Import Permutation.
 From CL Require Import Base.StrLemmas Model.Lexer Model.PText Model.CommentMask Model.Parser Model.Edits
   Proofs.LexerProofs Proofs.MaskProofs Proofs.MaskGen Proofs.EditProofs Proofs.EditParserProofs Proofs.EditLink
-  Gen.CharClass.
+  Proofs.ParserTotal Proofs.EditSimDefs Proofs.EditSimBlock Proofs.EditSimDoc Proofs.EditSimAll Proofs.EditSimCrlf Proofs.EditSimText Gen.CharClass.
 
 (* ---------------------------------------------------------------- lexer level *)
 
@@ -212,37 +222,7 @@ Proof. split; reflexivity. Qed.
 (* ---------------------------------------------------------------- the full statement *)
 (* Events without positions, as the analysis stage reads them: names, values, units, notes,
    metadata as their trimmed strings; step and paragraph text as the raw rendered string. *)
-Definition tx (t : text) : str := text_trimmed t.
-Definition pqv (q : qvalue) : value * bool := (qv q, match qlock q with Some _ => true | None => false end).
-Definition pq (q : quantity) : value * bool * option str := (pqv (q_val q), option_map tx (q_unit q)).
-
-Inductive pev :=
-| PYaml (s : str) | PMeta (k v : str) | PSection (n : option str) | PStart (b : bool) | PEnd (b : bool)
-| PText (s : str)
-| PIngr (m : N) (i : option (bool * bool * N)) (name : str) (alias : option str)
-        (q : option (value * bool * option str)) (note : option str)
-| PCook (m : N) (name : str) (alias : option str) (q : option (value * bool)) (note : option str)
-| PTimer (name : option str) (q : option (value * bool * option str))
-| PDiag (err : bool) (code : N).
-
-Definition proj (e : pevent) : pev :=
-  match e with
-  | EvYaml t => PYaml (text_str t)
-  | EvMetadata k v => PMeta (tx k) (tx v)
-  | EvSection n => PSection (option_map tx n)
-  | EvStart b => PStart b
-  | EvEnd b => PEnd b
-  | EvText t => PText (text_str t)
-  | EvIngredient i =>
-      PIngr (i_mods i) (option_map (fun d => (im_relative d, im_section d, im_val d)) (i_inter i))
-            (tx (i_name i)) (option_map tx (i_alias i)) (option_map pq (i_qty i)) (option_map tx (i_note i))
-  | EvCookware c =>
-      PCook (c_mods c) (tx (c_name c)) (option_map tx (c_alias c))
-            (option_map (fun q => pqv (fst q)) (c_qty c)) (option_map tx (c_note c))
-  | EvTimer t => PTimer (option_map tx (t_name t)) (option_map pq (t_qty t))
-  | EvDiag d => PDiag (d_err d) (d_code d)
-  end.
-
+(* [tx], [pq], [pev], [proj]: Proofs/EditSimDefs.v *)
 Definition is_pdiag (e : pev) : bool := match e with PDiag _ _ => true | _ => false end.
 
 (* "up to whitespace inside step text": adjacent text items merged, runs of blanks and tabs
@@ -285,6 +265,127 @@ Definition ev_equiv (o1 o2 : outcome (list pevent)) : Prop :=
   | Panic _, Panic _ => True
   | _, _ => False
   end.
+
+(* ---------------------------------------------------------------- event level: proved part *)
+(* Token streams with the same kinds token by token ([ksim]: positions free, comment and newline
+   texts free, every other text equal) give the same events up to positions: every function
+   of the block parser, one block, the block loop, a whole document.  [MR R m m] reads: from
+   related parser states, when both runs finish, R-related results and related states. *)
+Theorem C17_metadata_entry_ksim : forall cfg, MR (orel mdrel) (metadata_entry cfg) (metadata_entry cfg).
+Proof. exact metadata_entry_rel. Qed.
+Print Assumptions C17_metadata_entry_ksim.
+
+Theorem C17_section_ksim : forall cfg, MR (orel erel) (section_p cfg) (section_p cfg).
+Proof. exact section_rel. Qed.
+Print Assumptions C17_section_ksim.
+
+Theorem C17_component_ksim :
+  forall cfg, MR (orel erel) (ingredient_p cfg) (ingredient_p cfg)
+              /\ MR (orel erel) (cookware_p cfg) (cookware_p cfg)
+              /\ MR (orel erel) (timer_p cfg) (timer_p cfg).
+Proof. intro cfg. repeat split; [apply ingredient_ksim | apply cookware_ksim | apply timer_ksim]. Qed.
+Print Assumptions C17_component_ksim.
+
+Theorem C17_step_ksim : forall cfg, MR anyrel (parse_step cfg) (parse_step cfg).
+Proof. exact step_ksim. Qed.
+Print Assumptions C17_step_ksim.
+
+Theorem C17_block_ksim :
+  forall cfg blk1 blk2 evs1 evs2 old,
+    ksim blk1 blk2 -> Forall2 erel evs1 evs2 ->
+    OR (Forall2 erel) (run_block blk1 evs1 (parse_block cfg old)) (run_block blk2 evs2 (parse_block cfg old)).
+Proof. exact block_ksim. Qed.
+Print Assumptions C17_block_ksim.
+
+Theorem C17_blocks_ksim :
+  forall cfg fuel ts1 ts2 old evs1 evs2,
+    ksim ts1 ts2 -> Forall2 erel evs1 evs2 ->
+    OR (Forall2 erel) (blocks_loop cfg fuel ts1 old evs1) (blocks_loop cfg fuel ts2 old evs2).
+Proof. exact blocks_ksim. Qed.
+Print Assumptions C17_blocks_ksim.
+
+(* comments ANYWHERE (general [tsim]): a step block without component markers.  [st0 b evs] is the
+   parser state at the start of block [b]. *)
+Theorem C17_step_text_blind :
+  forall cfg x1 r1 x2 r2 evs1 evs2,
+    no_marker (x1 :: r1) = true -> no_marker (x2 :: r2) = true ->
+    tsim (x1 :: r1) (x2 :: r2) ->
+    Forall (fun t => tstr t <> []) (x1 :: r1) -> Forall (fun t => tstr t <> []) (x2 :: r2) ->
+    Forall2 erel evs1 evs2 ->
+    match parse_step cfg (st0 (x1 :: r1) evs1), parse_step cfg (st0 (x2 :: r2) evs2) with
+    | Done (_, s1), Done (_, s2) => Forall2 erel (b_evs s1) (b_evs s2) /\ b_rest s1 = [] /\ b_rest s2 = []
+    | _, _ => True
+    end.
+Proof. exact step_text_blind. Qed.
+Print Assumptions C17_step_text_blind.
+
+Theorem C17_text_block_blind :
+  forall cfg old x1 r1 x2 r2 evs1 evs2,
+    plain_start (kind x1) = true -> kind x1 = kind x2 ->
+    forallb (fun t => is_empty_tok (kind t)) (x1 :: r1) = false ->
+    no_marker (x1 :: r1) = true -> no_marker (x2 :: r2) = true ->
+    tsim (x1 :: r1) (x2 :: r2) ->
+    Forall (fun t => tstr t <> []) (x1 :: r1) -> Forall (fun t => tstr t <> []) (x2 :: r2) ->
+    Forall2 erel evs1 evs2 ->
+    OR (Forall2 erel) (run_block (x1 :: r1) evs1 (parse_block cfg old)) (run_block (x2 :: r2) evs2 (parse_block cfg old)).
+Proof. exact text_block_blind. Qed.
+Print Assumptions C17_text_block_blind.
+
+Lemma same_events_equiv e1 e2 : same_events e1 e2 -> ev_equiv (Done e1) (Done e2).
+Proof.
+  unfold same_events, ev_equiv, observed, diags_of. intro H. rewrite H. split; [reflexivity | apply Permutation_refl].
+Qed.
+
+Lemma OR_same_equiv cfg s1 s2 :
+  p_strict_escape cfg = false -> OR same_events (events U cfg s1) (events U cfg s2) ->
+  ev_equiv (events U cfg s2) (events U cfg s1).
+Proof.
+  intros Hc H. destruct (events_ok U cfg s1 Hc) as (e1 & E1 & _). destruct (events_ok U cfg s2 Hc) as (e2 & E2 & _).
+  rewrite E1, E2 in *. apply same_events_equiv. unfold OR, same_events in *. symmetry. exact H.
+Qed.
+
+(* document level, CRLF: the first conjunct of [C17_full_statement], for every source without a
+   backslash or a lone carriage return, with or without a front matter (the observation compares
+   the YAML text up to its line endings: [proj]) *)
+Theorem C17_crlf_events :
+  forall cfg s,
+    p_strict_escape cfg = false -> no_backslash s = true -> no_lone_cr s = true ->
+    ev_equiv (events U cfg (crlf s)) (events U cfg s).
+Proof.
+  intros cfg s Hc Hb Hl. apply OR_same_equiv; [exact Hc|].
+  apply (crlf_events_full U cfg gen_eol_breaks); assumption.
+Qed.
+Print Assumptions C17_crlf_events.
+
+(* document level, a blank or comment-only line [l] between blocks: the last conjunct of
+   [C17_full_statement] for sources without a front matter.  The second front-matter hypothesis is
+   needed: the comment-only line "---" is a YAML fence. *)
+Theorem C17_extra_line_events :
+  forall cfg a l b ta tl tb,
+    p_strict_escape cfg = false ->
+    parse_frontmatter cfg (a ++ b) = None -> parse_frontmatter cfg (a ++ l ++ b) = None ->
+    lex_at U a 0 = Some ta -> lex_at U l 0 = Some tl -> lex_at U b (blen a) = Some tb ->
+    (ta = [] \/ exists p nl, ta = p ++ [nl] /\ kind nl = KNewline) -> blank_line tl ->
+    reach (ta ++ tb) tb ->
+    ev_equiv (events U cfg (a ++ l ++ b)) (events U cfg (a ++ b)).
+Proof.
+  intros cfg a l b ta tl tb Hc F1 F2 La Ll Lb Hta Hl Hr. apply OR_same_equiv; [exact Hc|].
+  apply (extra_line_events_all cfg U gen_special_breaks gen_eol_breaks a l b ta tl tb); assumption.
+Qed.
+Print Assumptions C17_extra_line_events.
+
+(* the hypotheses of [C17_extra_line_events] are satisfiable: "a\n\n" | "--c\n" | "b" *)
+Example C17_extra_line_hypotheses_satisfiable :
+  exists ta tl tb,
+    lex_at U [97; 10; 10] 0 = Some ta /\ lex_at U [45; 45; 99; 10] 0 = Some tl /\ lex_at U [98] 3 = Some tb
+    /\ (exists p nl, ta = p ++ [nl] /\ kind nl = KNewline) /\ blank_line tl /\ reach (ta ++ tb) tb.
+Proof.
+  eexists. eexists. eexists. split; [vm_compute; reflexivity|]. split; [vm_compute; reflexivity|].
+  split; [vm_compute; reflexivity|]. split; [|split].
+  - eexists [_; _], _. split; reflexivity.
+  - eexists [_], _. split; [reflexivity | split; reflexivity].
+  - eapply reach_step; [vm_compute; reflexivity | apply reach_here].
+Qed.
 
 (* well-formed: parses without an error *)
 Definition well_formed (cfg : pcfg) (s : str) : Prop :=
